@@ -35,15 +35,7 @@ impl Op {
     }
 
     pub(crate) fn push(&mut self, other: MultiOp) {
-        if self.1.is_empty() {
-            if let Some((last, Sep::Nop)) = self.0.back_mut() {
-                *last *= other;
-            } else {
-                self.1 = other;
-            }
-        } else {
-            self.1 *= other;
-        }
+        self.1 *= other;
     }
 
     pub(crate) fn ends_with(&self, suffix: &Self) -> bool {
